@@ -62,17 +62,41 @@ Proof. intro H. exact H. Qed.
 Lemma bool3 a b c : (a || c) || b = (a || b) || c.
 Proof. destruct a, b, c; reflexivity. Qed.
 
+Lemma set_tys_same : forall xs es s, declared (set_tys xs es s) = declared s /\ globals (set_tys xs es s) = globals s.
+Proof.
+  induction xs as [|x xr IH]; intros [|e er] s; cbn; auto.
+  destruct (IH er (with_ty x (a_ty e) s)) as [A B]. rewrite A, B. auto.
+Qed.
+
+Lemma tuple_global_spec : forall xs es s, length xs = length es ->
+  fst (tuple_global xs es s) = tup_nodes xs es /\
+  declared (snd (tuple_global xs es s)) = declared s ++ xs /\
+  globals (snd (tuple_global xs es s)) = globals s ++ tup_globals xs es.
+Proof.
+  induction xs as [|x xr IH]; intros [|e er] s Hlen; cbn in Hlen; try discriminate.
+  - cbn. rewrite !app_nil_r. auto.
+  - injection Hlen as Hlen. cbn [tuple_global tup_nodes tup_globals].
+    destruct (closed_const e);
+      match goal with |- context [tuple_global xr er ?S] =>
+        destruct (IH er S Hlen) as (A & B & C); destruct (tuple_global xr er S) as [rest s3] end;
+      cbn [fst snd] in *; rewrite A, B, C; cbn [declared globals add_global declare];
+      rewrite <- !app_assoc; auto.
+Qed.
+
 Lemma tr_block_simple ml : forall f gf glob top lm ld s D L ps D' ns s',
-  glob = top && negb lm ->
+  glob = top && negb lm -> implb lm (no_top_tuple ps) = true ->
   g_block gf top D L ps = Some D' -> Dec D L s ->
   tr_block ml f glob ld s ps = Some (ns, s') ->
   ns = fst (trm top lm D ps) /\ globals s' = globals s ++ snd (trm top lm D ps) /\ Dec D' L s'.
 Proof.
-  induction f as [|f IH]; intros gf glob top lm ld s D L ps D' ns s' HGL HG HD H; [discriminate|].
+  induction f as [|f IH]; intros gf glob top lm ld s D L ps D' ns s' HGL Htup HG HD H; [discriminate|].
   destruct ps as [|p rest].
   - inversion H; subst. destruct gf; [discriminate|]. rewrite g_block_nil in HG. inversion HG; subst.
     rewrite trm_nil. cbn. rewrite app_nil_r. auto.
   - apply g_block_cons_inv in HG as (gf' & D1 & -> & HS & HG).
+    assert (Htr : implb lm (no_top_tuple rest) = true).
+    { destruct lm; [|reflexivity]. cbn [implb no_top_tuple forallb] in Htup |- *.
+      apply andb_true_iff in Htup as [_ Htup]. exact Htup. }
     assert (K : forall ns0 s1 nsp gsp,
                trm top lm D (p :: rest) = (nsp ++ fst (trm top lm D1 rest), gsp ++ snd (trm top lm D1 rest)) ->
                match tr_block ml f glob ld s1 rest with
@@ -81,7 +105,7 @@ Proof.
                ns = fst (trm top lm D (p :: rest)) /\ globals s' = globals s ++ snd (trm top lm D (p :: rest)) /\ Dec D' L s').
     { intros ns0 s1 nsp gsp HT Hr -> Hg Hd.
       destruct (tr_block ml f glob ld s1 rest) as [[ms s2]|] eqn:E; [|discriminate].
-      inversion Hr; subst. destruct (IH _ _ top lm _ _ _ _ _ _ _ _ eq_refl HG Hd E) as (I1 & I2 & I3).
+      inversion Hr; subst. destruct (IH _ _ top lm _ _ _ _ _ _ _ _ eq_refl Htr HG Hd E) as (I1 & I2 & I3).
       rewrite HT. cbn [fst snd]. rewrite I1, I2, Hg, app_assoc. auto. }
     destruct p; cbn [tr_block] in H.
     + (* PAssign *)
@@ -116,7 +140,23 @@ Proof.
       destruct (ty_eqb t t_after); [|discriminate]. inversion HS; subst D1.
       eapply (K _ _ [NAssign x (XAug x op (a_id e))] []); [|exact H|reflexivity|cbn; rewrite app_nil_r; reflexivity|exact HD].
       rewrite (trm_cons_other top lm D (PAug x op e t_after) rest I), tr1_unfold. reflexivity.
-    + discriminate.
+    + (* PTuple: declaration of new globals *)
+      cbn [g_step] in HS. destruct (top && tuple_decl_ok D L xs es) eqn:Hk; [|discriminate].
+      inversion HS; subst D1. apply andb_true_iff in Hk as [-> Hk].
+      destruct lm; [cbn in Htup; discriminate|]. cbn [andb negb] in HGL. subst glob.
+      destruct (tuple_decl_ok_inv _ _ _ _ Hk) as (Hlen & _ & Hnew & Hnd).
+      head_opt H a0 a1 E.
+      unfold tr_tuple in E. rewrite Hlen, Nat.leb_refl, firstn_all in E. cbn [negb] in E.
+      assert (Hall : forallb (fun x => negb (is_declared x s)) xs = true).
+      { apply forallb_forall. intros x Hx. destruct (Hnew x Hx) as [A B]. unfold is_declared.
+        rewrite (HD x). apply negb_true_iff. apply orb_false_iff. split; [exact (A)|exact B]. }
+      rewrite Hall in E. cbn [andb] in E. inversion E as [E']. clear E.
+      destruct (tuple_global_spec xs es (set_tys xs es s) Hlen) as (T1 & T2 & T3).
+      destruct (set_tys_same xs es s) as [Y1 Y2]. rewrite Y1 in T2. rewrite Y2 in T3.
+      rewrite E' in T1, T2, T3. cbn [fst snd] in T1, T2, T3.
+      eapply (K _ _ (tup_nodes xs es) (tup_globals xs es)); [exact (trm_cons_tuple D L xs es rest Hk)|exact H|exact T1|exact T3|].
+      intro y. rewrite T2, map_app, map_fst_combine by (rewrite map_length; exact Hlen).
+      rewrite !tmem_app, (HD y). apply bool3.
     + (* PIf *)
       cbn [g_step] in HS.
       match type of HS with (if ?cnd then _ else _) = _ => destruct cnd eqn:Hc; [|discriminate] end.
@@ -132,7 +172,7 @@ Proof.
       { rewrite (trm_cons_other top lm D (PIf c body elifs els) rest I), tr1_unfold. reflexivity. }
       head_opt H a0 a1 E.
       destruct (tr_block ml f false ld (child_of s (globals s)) body) as [[ns1 cs1]|] eqn:E1; [|discriminate].
-      destruct (IH _ false false false _ _ _ _ _ _ _ _ eq_refl H1 (Dec_child D L s (globals s) HD) E1) as (I1 & I2 & I3).
+      destruct (IH _ false false false _ _ _ _ _ _ _ _ eq_refl eq_refl H1 (Dec_child D L s (globals s) HD) E1) as (I1 & I2 & I3).
       cbn [trm fst snd child_of globals] in I1, I2. rewrite app_nil_r in I2.
       match type of E with
       | context [?B (globals cs1) elifs] => set (BR := B) in *
@@ -147,7 +187,7 @@ Proof.
         - destruct (tr_block ml f false ld (child_of s gl) b) as [[nsb cs]|] eqn:Eb; [|discriminate].
           destruct (BR (globals cs) r) as [[rest' gl'']|] eqn:Er; [|discriminate].
           inversion Hb; subst brs gl''. clear Hb.
-          destruct (IH _ false false false _ _ _ _ _ _ _ _ eq_refl (Hgd (c', b) (or_introl eq_refl)) (Dec_child D L s gl HD) Eb) as (J1 & J2 & J3).
+          destruct (IH _ false false false _ _ _ _ _ _ _ _ eq_refl eq_refl (Hgd (c', b) (or_introl eq_refl)) (Dec_child D L s gl HD) Eb) as (J1 & J2 & J3).
           cbn [trm fst snd child_of globals] in J1, J2. rewrite app_nil_r in J2.
           destruct (IHl (globals cs) rest' gl') as (K1 & K2 & K3); [congruence|intros; apply Hgd; right; assumption|exact Er|].
           split; [exact K1|]. split; [cbn; rewrite K2, J1; reflexivity|constructor; assumption]. }
@@ -190,7 +230,7 @@ Proof.
       * eapply (FIN [] (map (fun x : Z * list cnode * tst => snd x) ((a_id c, ns1, cs1) :: brs0) ++ []) _ HCOLg); [|reflexivity|exact E].
         apply Forall_app. split; [exact B3'|constructor].
       * destruct (tr_block ml f false ld (child_of s gl1) (e0 :: els')) as [[nse cse]|] eqn:Ee; [|discriminate].
-        destruct (IH _ false false false _ _ _ _ _ _ _ _ eq_refl H3 (Dec_child D L s gl1 HD) Ee) as (J1 & J2 & J3).
+        destruct (IH _ false false false _ _ _ _ _ _ _ _ eq_refl eq_refl H3 (Dec_child D L s gl1 HD) Ee) as (J1 & J2 & J3).
         cbn [trm fst snd child_of globals] in J1, J2. rewrite app_nil_r in J2.
         cbn [globals] in E. rewrite J2 in E.
         eapply (FIN nse (map (fun x : Z * list cnode * tst => snd x) ((a_id c, ns1, cs1) :: brs0) ++ [cse]) _ HCOLg); [|exact J1|exact E].
@@ -201,7 +241,7 @@ Proof.
       inversion HS; subst D1. apply andb_true_iff in Hc as [_ H1]. apply nested_true in H1.
       head_opt H a0 a1 E.
       destruct (tr_block ml f false (S ld) (child_of s (globals s)) body) as [[nsb cs]|] eqn:Eb; [|discriminate].
-      destruct (IH _ false false false _ _ _ _ _ _ _ _ eq_refl H1 (Dec_child D L s (globals s) HD) Eb) as (I1 & I2 & I3).
+      destruct (IH _ false false false _ _ _ _ _ _ _ _ eq_refl eq_refl H1 (Dec_child D L s (globals s) HD) Eb) as (I1 & I2 & I3).
       cbn [trm fst snd child_of globals] in I1, I2. rewrite app_nil_r in I2.
       rewrite (Dec_new_names D L s cs HD I3) in E. rewrite filter_tmem_nil in E.
       cbn [dedup app filter map fold_left promo_decls] in E. rewrite map_rewrite_deep_nil in E.
@@ -227,7 +267,7 @@ Proof.
       assert (HDb : Dec D (x :: L) base).
       { intro y. unfold base. cbn [declared]. rewrite tmem_app, (HD y). cbn [tmem].
         destruct (tmem y (map fst D)), (tmem y L), (text_eqb y x); reflexivity. }
-      destruct (IH _ false false false _ _ _ _ _ _ _ _ eq_refl H8 HDb Eb) as (I1 & I2 & I3).
+      destruct (IH _ false false false _ _ _ _ _ _ _ _ eq_refl eq_refl H8 HDb Eb) as (I1 & I2 & I3).
       cbn [trm fst snd] in I1, I2. rewrite app_nil_r in I2.
       rewrite (Dec_new_names D (x :: L) base cs HDb I3) in E. rewrite filter_tmem_nil in E.
       cbn [dedup app filter map fold_left promo_decls] in E. rewrite map_rewrite_deep_nil in E.
